@@ -289,6 +289,9 @@ func refMatch(p, g *T17, th map[string]string) bool {
 		th[p.N] = c
 		return true
 	}
+	if g.K == "bot" {
+		return true // the empty-container element type on the right is absorbed by any non-variable
+	}
 	if p.K != g.K {
 		return false
 	}
@@ -671,6 +674,7 @@ type Case17 struct {
 	Sweep bool         `json:"sweep,omitempty"` // drawn from the systematic small-pair list (c17sweep.go)
 	Aim   string       `json:"aim,omitempty"`   // infer: at run time one type parameter is renamed to the very name ("t<id>" / "s<id>") the checker is about to generate for one of its own fresh variables (a legal name: fresh means fresh for the terms at hand)
 	AimJ  int          `json:"aim_j,omitempty"`
+	BotG  bool         `json:"bot_g,omitempty"` // match: the variable-free side contains the bottom type somewhere (pattern on the left, no function types: see DESIGN.md, X01)
 	GC    string       `json:"gc"`             // none | dense | sparse
 	Sim   simrt.Config `json:"sim"`
 }
@@ -937,6 +941,14 @@ func genCase17(r *rng) *Case17 {
 				c.Y = g.instantiate(c.X)
 			}
 		}
+	}
+	if c.Mode == "match" && !c.X.has("fun") && r.chance(0.35) {
+		// the variable-free side holds a bottom somewhere: absorbed where it faces a
+		// non-variable, while a variable still stands for ONE type. Function types are left
+		// out: in parameter position the library substitutes before it unifies, the one place
+		// where the two readings of the bottom rule differ on the unchanged tree.
+		c.Y = replaceLeaf(c.Y, "bot", r)
+		c.BotG, c.Flip = true, false
 	}
 	if nest && c.Mode == "top" {
 		c.X = replaceLeaf(c.Y, "top", r)
@@ -1259,6 +1271,9 @@ func runCase17(c *Case17) case17Result {
 			if o.OK != want {
 				return fail("law", fmt.Sprintf("c17:match-%v-want-%v", o.OK, want),
 					fmt.Sprintf("pattern vs variable-free type: Unify %s but an instantiation %s (flip=%v)", okWord(o.OK), existsWord(want), c.Flip))
+			}
+			if c.BotG {
+				break // the unifier is the pattern side: not the ground type where that holds a bottom
 			}
 			if o.OK && o.Res != gr.canon() {
 				return fail("law", "c17:match-wrong-unifier", fmt.Sprintf("Unify succeeded but returned the type %s, not the matched variable-free type", o.Res))
